@@ -195,15 +195,20 @@ static void runLockstep(const std::string& line) {
   });
   // thread 1: user
   S.spawn([&]() {
+    bool detached = false;
     for (char o : uops) {
       if (o == 'C') {
         task->cancel();
       } else if (o == 'D') {
         task->detach();
+        detached = true;
       } else if (o == 'L') {
         S.result("calls", static_cast<long>(task->calls()));
       } else if (o == 'X') {
         task.reset();
+        // where in the trace the destructor of a NON-detached task returned (index of the next step): every later step that touches
+        // the closure is "after the destructor returned", whatever path the destructor took
+        if (!detached) S.result("dret", S.nsteps());
         break;
       }
     }
